@@ -15,5 +15,6 @@ rm -rf "$WORK/rosmar" "$WORK/harness"
 "$VINST" -src "$REPO" -dst "$WORK/rosmar" -vrt "$HERE/vrt" -export "$HERE/export" > "$WORK/vinst.log" 2>&1 || { cat "$WORK/vinst.log" >&2; echo "build.sh: vinst failed" >&2; exit 2; }
 cp -r "$HERE/harness" "$WORK/harness" || exit 2
 cat "$REPO/go.sum" "$HERE/harness/go.sum.extra" 2>/dev/null | sort -u > "$WORK/harness/go.sum"
-(cd "$WORK/harness" && go build -tags verif -o "$WORK/vcheck" ./cmd/vcheck) > "$WORK/build.log" 2>&1 || { cat "$WORK/build.log" >&2; echo "build.sh: harness build failed" >&2; exit 2; }
+RACEFLAG=""; [ "${RACE:-0}" = "1" ] && RACEFLAG="-race"
+(cd "$WORK/harness" && go build $RACEFLAG -tags verif -o "$WORK/vcheck" ./cmd/vcheck) > "$WORK/build.log" 2>&1 || { cat "$WORK/build.log" >&2; echo "build.sh: harness build failed" >&2; exit 2; }
 exit 0
